@@ -183,6 +183,8 @@ struct Driver {
     pending: Vec<Pending>,
     ev: Option<ConnectionEvents>,
     ev_ended: bool,
+    /// the application keeps the event receiver but does not poll it until the end of the run
+    lazy_events: bool,
 }
 
 impl Driver {
@@ -393,7 +395,7 @@ impl Driver {
     }
 
     async fn drain_events(&mut self) {
-        if self.ev_ended {
+        if self.ev_ended || self.lazy_events {
             return;
         }
         let Some(ev) = self.ev.as_mut() else { return };
@@ -475,7 +477,7 @@ pub fn run_one(run: &Value) -> Vec<Value> {
             s.log.push(json!({"e": "reset", "run": run_id,
                 "has_pw": password.is_some(), "pw": password.clone().unwrap_or_default(),
                 "has_srv_pw": scfg.password.is_some(), "srv_pw": scfg.password.clone().unwrap_or_default(),
-                "auth": scfg.auth, "greeting": greeting, "nh": ncallers + if observer_handle { 1 } else { 0 },
+                "auth": scfg.auth, "lazy_events": run["cfg"]["lazy_events"].as_bool().unwrap_or(false), "greeting": greeting, "nh": ncallers + if observer_handle { 1 } else { 0 },
                 "pic": {"embedded": sz(&pic.embedded), "file": sz(&pic.file), "hasMime": pic.mime.is_some(), "mime": pic.mime.clone().unwrap_or_default(),
                         "limit": pic.limit, "embedded_ack": pic.embedded_ack, "file_ack": pic.file_ack, "vary": pic.vary},
                 "pic2": {"embedded": sz(&pic2.embedded), "file": sz(&pic2.file), "hasMime": pic2.mime.is_some(), "mime": pic2.mime.clone().unwrap_or_default(),
@@ -506,7 +508,7 @@ pub fn run_one(run: &Value) -> Vec<Value> {
                 }
             }
         });
-        let mut d = Driver { m: mm.clone(), clients: vec![], issued: vec![0; ncallers + 1], pending: vec![], ev: None, ev_ended: false };
+        let mut d = Driver { m: mm.clone(), clients: vec![], issued: vec![0; ncallers + 1], pending: vec![], ev: None, ev_ended: false, lazy_events: run["cfg"]["lazy_events"].as_bool().unwrap_or(false) };
         // handshake phase: `pre` batches (deliver / fault only) until connect returns
         let mut result = None;
         let mut pi = 0;
@@ -560,6 +562,13 @@ pub fn run_one(run: &Value) -> Vec<Value> {
         }
         // drain to a fixpoint: deliver everything, let timers expire, until nothing moves
         d.apply(&json!({"op": "wresume"}));
+        if d.lazy_events {
+            // from here on the application reads its events
+            d.lazy_events = false;
+            log(&mm, json!({"e": "events_eager"}));
+            d.drain_events().await;
+            log(&mm, json!({"e": "quiescent"}));
+        }
         log(&mm, json!({"e": "drain"}));
         let mut stable = 0;
         let mut rounds = 0;
